@@ -11,6 +11,7 @@ wt=/tmp/wt-$id
 out=/verif/seeded/$id
 mkdir -p $out
 cd $wt || exit 2
+rm -f MUTANT.diff
 demos=$(git status --porcelain | grep '^??' | awk '{print $2}' | grep '_test.go$')
 git diff > $out/patch.diff
 [ -s $out/patch.diff ] || { echo "no source change in $wt"; exit 2; }
